@@ -15,7 +15,7 @@ EXPLANATION = (
     'multiprocessing.connection.wait([... pipe end ..., <process>.sentinel]) whose result is tested for the pipe end: a '
     'child that dies while starting cannot block its creator; the accept() of the control connection is multiplexed with the '
     'client data socket the same way. R3: the failure path of the remote constructor joins the frontend thread, which closes '
-    'its sockets, and re-raises. R4: registration as an active child is dominated by the completed _start(). R5: every `mp.connection.wait` has a reason why multiprocessing.connection is imported at that point (see C11.R5) - a start-up wait that fails with AttributeError leaves the client of a stand-alone server without a worker.')
+    'its sockets, and re-raises. R4: registration as an active child is dominated by the completed _start(). R5: every `mp.connection.wait` has a reason why multiprocessing.connection is imported at that point (see C11.R5) - a start-up wait that fails with AttributeError leaves the client of a stand-alone server without a worker. R6: on the child side, every blocking read of a pipe end is preceded by the close of the child\'s inherited copy of the opposite end (in the same function, or in the _init_child hook), unless the child itself writes to that end - otherwise the death of the peer never produces EOF and the child (holding copies of the sockets) is left behind with the constructor blocked.')
 TECHNIQUE = 'must-pass-through on the CFG with exception edges, multiplexed-wait recogniser with dominators'
 
 
@@ -117,6 +117,7 @@ def run(ctx):
                           'bare-accept', f'{f.short} blocks in accept() on the control listener ({why}): a client that dies before connecting leaves the '
                           'server blocked forever and no other client is ever served', where=loc(f, c))
     ctx.floor('start-up receive/accept sites', n_recv, 4)
+    check_child_side_reads(ctx)
     # ... and the constructor that runs _start() through super().__init__() closes its copy of the child end only afterwards
     for cls, f in cands:
         if f.name != '_start':
@@ -206,3 +207,70 @@ def guarded_by_wait(g, dom, f, recv_nodes, pipe, other_suffix):
                     return False, f'{other} is closed by this process before the guarded receive: a dead child makes {pipe} ready (EOF) too'
             return True, ''
     return False, 'the result of the wait is not tested for the pipe before receiving'
+
+
+def check_child_side_reads(ctx):
+    """R6 (child side of the pipes): a blocking read of `self.<P>.child_end` in the child ends with EOF when the other side dies only if the
+    child does not itself hold a copy of `<P>.parent_end` any more.  For every such read in the child-main / work loop of the process and remote
+    kinds - unless the child is itself a writer of that end (the control pipe, through which it releases its own control thread) - the child's
+    copy of the parent end is closed before the read: in the same function on every path (dominance), or at the top level of the `_init_child`
+    hook that the child-main calls before the work loop."""
+    from ..lifecycle import lifecycle, worker_classes
+    P = ctx.prog
+    n = 0
+    seen = set()
+    for cls in worker_classes(P, internal=True):
+        lc = lifecycle(ctx, cls)
+        if lc.kind == 'thread':
+            continue
+        funcs = [lc.main]
+        _, dw = cls.resolve('do_work')
+        if dw is not None:
+            funcs.append(dw)
+        _, ic = cls.resolve('_init_child')
+        child_writes = set()
+        for c in cls.mro():
+            if isinstance(c, str):
+                continue
+            for f in c.methods.values():
+                for call in calls_in(f.node):
+                    r = receiver(call) or ''
+                    if last_attr(call) in ('send', 'put') and r.startswith('self.') and r.endswith('.parent_end') and f.name not in ('enqueue', 'close', 'terminate', 'wait', '_release_child', '__setstate__', '_start'):
+                        child_writes.add(r)
+        init_closes = set()
+        if ic is not None:
+            chain = [ic]
+            for call in calls_in(ic.node):
+                rr = P.resolve_call(call, ic, cls)
+                if rr and rr[0] == 'func' and rr[1].name == '_init_child':
+                    chain.append(rr[1])
+            for f in chain:
+                for st in f.node.body:
+                    if isinstance(st, ast.Expr) and isinstance(st.value, ast.Call) and last_attr(st.value) == 'close':
+                        init_closes.add(receiver(st.value))
+        for f in funcs:
+            g = ctx.an.cfg(f, cls)
+            dom = None
+            for call in calls_in(f.node):
+                r = receiver(call) or ''
+                if not (last_attr(call) in ('recv', 'get') and r.startswith('self.') and r.endswith('.child_end')):
+                    continue
+                if any(k.arg == 'timeout' for k in call.keywords) or (last_attr(call) == 'get' and call.args):
+                    continue
+                other = r[:-len('.child_end')] + '.parent_end'
+                key = (f.qualname, r, call.lineno)
+                if key in seen or other in child_writes:
+                    continue
+                seen.add(key)
+                n += 1
+                dom = dom or g.dominators(edge_ok=lambda e: e.kind != 'async')
+                closers = {x.id for x in g.nodes if x.stmt is not None and x.part == 'post' and any(last_attr(c2) == 'close' and receiver(c2) == other for c2 in x.calls())}
+                rn = [x for x in g.nodes if x.stmt is not None and x.part == 'eval' and any(c2 is call for c2 in x.calls())]
+                ok = bool(rn) and all(dom.get(x.id, set()) & closers for x in rn)
+                if not ok and f is dw and other in init_closes:
+                    ok = True
+                ctx.check('R6', f'{f.short}: the child has closed its copy of {other} before it blocks in `{short(call, 40)}`', ok, f.short, f'child-holds-peer-end:{other}',
+                          f'{f.short} blocks in `{short(call, 50)}` while the child still holds its inherited copy of {other}: if the other side dies at that moment the read never '
+                          'sees EOF - the child is left behind for ever and, as it also holds copies of the sockets, the client\'s constructor never gets an answer either', where=loc(f, call))
+    ctx.floor('blocking child-side reads of a pipe end', n, 2)
+
